@@ -28,9 +28,26 @@ type c21List struct{ cur []string }
 
 func (l *c21List) Resolve() stringset.Set { return stringset.New(l.cur...) }
 
-type c21Filter struct{ healthy []string }
+// c21Filter is a scripted health filter that honours the Filter contract: it answers the scripted hosts
+// that are in the set it was asked about, and remembers that set (`raw`: answers the script verbatim,
+// for the outside-the-contract stream only).
+type c21Filter struct {
+	healthy []string
+	raw     bool
+	lastArg []string
+}
 
-func (f *c21Filter) Run(addrs stringset.Set) stringset.Set { return stringset.New(f.healthy...) }
+func (f *c21Filter) Run(addrs stringset.Set) stringset.Set {
+	f.lastArg = addrs.ToSlice()
+	sort.Strings(f.lastArg)
+	out := stringset.New()
+	for _, h := range f.healthy {
+		if f.raw || addrs.Has(h) {
+			out.Add(h)
+		}
+	}
+	return out
+}
 
 type c21Ring struct {
 	list   *c21List
@@ -90,6 +107,10 @@ func c21Digest(shard string) (core.Digest, error) {
 
 func c21Exec(t *verifh.T, c verifh.Case) {
 	rings := map[string]*c21Ring{}
+	raw := false
+	for _, k := range c.Cfg {
+		raw = raw || k == "rawfilter"
+	}
 	t.Cfg(c.Cfg...)
 	lastTbl := ""
 	do := func(op []string) {
@@ -102,11 +123,11 @@ func c21Exec(t *verifh.T, c verifh.Case) {
 			if err != nil {
 				return
 			}
-			g := &c21Ring{list: &c21List{c21Addrs(op[4])}, filter: &c21Filter{c21Addrs(op[5])}}
+			g := &c21Ring{list: &c21List{c21Addrs(op[4])}, filter: &c21Filter{healthy: c21Addrs(op[5]), raw: raw}}
 			g.r = New(Config{MaxReplica: mr}, g.list, g.filter, tally.NoopScope).(*ring)
 			rings[op[2]] = g
 			lastTbl = ""
-			t.Op(op[1:], c21NodesTok(g.r))
+			t.Op(op[1:], c21NodesTok(g.r), "filterarg="+c21AddrsTok(g.filter.lastArg))
 		case op[1] == "refresh" && len(op) == 5:
 			g := rings[op[2]]
 			if g == nil {
@@ -116,7 +137,7 @@ func c21Exec(t *verifh.T, c verifh.Case) {
 			g.filter.healthy = c21Addrs(op[4])
 			g.r.Refresh()
 			lastTbl = ""
-			t.Op(op[1:], c21NodesTok(g.r))
+			t.Op(op[1:], c21NodesTok(g.r), "filterarg="+c21AddrsTok(g.filter.lastArg))
 		case op[1] == "members" && len(op) == 3:
 			g := rings[op[2]]
 			if g == nil {
@@ -143,7 +164,7 @@ func c21Exec(t *verifh.T, c verifh.Case) {
 			}
 			key := op[2] + "/" + op[3]
 			if lastTbl != key {
-				row := []string{op[3]}
+				row := []string{d.ShardID()} // what the ring will hash: Digest.ShardID(), not the requested prefix
 				if g.r.hash != nil {
 					for _, nd := range g.r.hash.Nodes {
 						row = append(row, verifh.Str(nd.Label)+"="+c21ScoreTok(nd.Score(d.ShardID())))
@@ -407,6 +428,7 @@ func TestVerif_C21(t *testing.T) {
 			}
 		}
 		c.Ops = append(c.Ops, c21Op("members", "r0"))
+		c.Cfg = []string{"rawfilter"}
 		c21Exec(tr, c)
 		tr.Count("outside_contract_cases", 1)
 	}
